@@ -120,6 +120,12 @@ Definition vis_make (v : visibility) (e : ent) : visibility :=
   let m1 := fold_left (fun m i => vmap_put (edes i) i m) (implicits e) (v_named v) in
   mkVis (v_all v) (vmap_put (edes e) e m1).
 
+(* Visibility::add_context_visibility: the `.all` regions of the context, then every individually
+   visible entity of the context, designator by designator, entity by entity *)
+Definition vis_add_context (v ctx : visibility) : visibility :=
+  mkVis (v_all v ++ v_all ctx)
+        (fold_left (fun m de => fold_left (fun m' e => vmap_put (fst de) e m') (snd de) m) (v_named ctx) (v_named v)).
+
 (* Visible::insert: keyed by entity id, first one stays (no aliases in the fragment) *)
 Definition visible_insert (acc : list ent) (e : ent) : list ent :=
   if existsb (fun x => eid x =? eid e) acc then acc else acc ++ [e].
@@ -243,6 +249,8 @@ Definition frame_mpv (c : cfg) (f : frame) (e : ent) : frame :=
           (if mpv_clears c then [] else cache_remove (f_cache f) (edes e)).
 Definition frame_mapv (f : frame) (r : entities) : frame :=
   mkFrame (mkRegion (r_ents (f_region f)) (vis_make_all (r_vis (f_region f)) r)) [].
+Definition frame_ctx (f : frame) (ctx : visibility) : frame :=
+  mkFrame (mkRegion (r_ents (f_region f)) (vis_add_context (r_vis (f_region f)) ctx)) [].
 Definition frame_uncache (f : frame) (d : des) : frame :=
   mkFrame (f_region f) (cache_remove (f_cache f) d).
 
@@ -265,7 +273,8 @@ Inductive op :=
 | OMpv (e : ent)           (* top.make_potentially_visible(e) *)
 | OMapv (r : entities)     (* top.make_all_potentially_visible(region of a package) *)
 | OUncache (d : des)       (* top.invalidate_cached(d) *)
-| OLookup (d : des).       (* top.lookup(d) *)
+| OLookup (d : des)        (* top.lookup(d) *)
+| OCtx (v : visibility).   (* top.add_context_visibility(region of a context declaration): cache cleared *)
 
 Definition exec (c : cfg) (s : scope) (o : op) : option (scope * option lres) :=
   match o with
@@ -278,6 +287,7 @@ Definition exec (c : cfg) (s : scope) (o : op) : option (scope * option lres) :=
   | OMapv en => match s with [] => None | f :: r => Some (frame_mapv f en :: r, None) end
   | OUncache d => match s with [] => None | f :: r => Some (frame_uncache f d :: r, None) end
   | OLookup d => match lookup s d with Some (res, s') => Some (s', Some res) | None => None end
+  | OCtx v => match s with [] => None | f :: r => Some (frame_ctx f v :: r, None) end
   end.
 
 (* run a trace; the lookups' results in order *)
@@ -328,6 +338,7 @@ Definition dstep (st : list dframe) (o : op) : option (list dframe) :=
       | [] => None
       | f :: r => if mem d (d_stale f) then None else Some (mkD (d :: d_cached f) (d_stale f) :: r)
       end
+  | OCtx _ => match st with [] => None | _ :: r => Some (mkD [] [] :: r) end
   end.
 
 (* "the trace follows the analysis discipline": scopes are used as a stack, and a designator is
@@ -399,6 +410,9 @@ Definition use_ops (t : mtable) (it : item) : list op :=
           end
       | None => []
       end
+  | IUseCtx c =>
+      (* context reference: Design::Context(region) of the context declaration *)
+      match mtab_find t c with Some (_, r) => [OCtx (r_vis r)] | None => [] end
   | _ => []
   end.
 
@@ -445,7 +459,7 @@ Definition elab_site (c : cfg) (lt : lits_table) (st : estate) (s : site) : opti
 Definition elab_item (c : cfg) (lt : lits_table) (st : estate) (it : item) : option estate :=
   match it with
   | IDecl e => do_ops c st [OAdd 0 e]
-  | IUseAll _ | IUseName _ _ => do_ops c st (use_ops (e_tab st) it)
+  | IUseAll _ | IUseName _ _ | IUseCtx _ => do_ops c st (use_ops (e_tab st) it)
   | ISite s => elab_site c lt st s
   | IOpen => do_ops c st [ONested]
   | IOpenFun f p =>
